@@ -1027,6 +1027,98 @@ def gen_casting(repo):
     return "\n".join(L) + "\n"
 
 
+# --------------------------------------------------------------------------------------
+# the failure report: data.py / rules.py / schema.py
+# --------------------------------------------------------------------------------------
+# The three functions that build the report are straight-line string builders.  Their *shape*
+# (statements, loops, conditions, the formatted holes such as `{fail.path!r}`) must be exactly the
+# recorded skeleton (tools/skeletons.json; record with `extract.py --record-skeletons`); their string
+# literals are read from the source, in order, and become the constants of ValidaGen/ReportFmt.lean
+# the model of the report is built from.  A reworded message follows into the model; a change of
+# shape is an extraction error (the tie to the source is then reported as broken).
+
+SKELETON_FILE = os.path.join(os.path.dirname(os.path.abspath(__file__)), "skeletons.json")
+
+REPORT_FUNCTIONS = [
+    # (file, class, method, names of the string literals in source order)
+    ("data.py", "FilteredDataLike", "get_failure_by_index",
+     ["msgPreErr", "msgCErr", "msgCFalse", "skipRowA", "skipRowB"]),
+    ("rules.py", "RuleTest", "get_failures_string",
+     ["ruleOutInit", "ruleValidMsg", "failPathPrefix", "failValuePrefix", "failReasonsHeader",
+      "reasonPrefix", "reasonSuffix"]),
+    ("schema.py", "ValidatedData", "get_failures_string",
+     ["repOutInit", "testedSep", "testedSuffix", "validPrefix", "validSuffix", "headerRule", "headerPlural",
+      "headerSingular", "headerFailed", "headerSuffix", "sectionPrefix", "sectionTitleEnd", "underlineChar",
+      "underlineEnd", "sectionEnd"]),
+]
+
+
+def skeleton_of(fn):
+    """(shape of the body with every str literal blanked, the str literals in source order)"""
+    import copy
+    lits = []
+
+    class Blank(ast.NodeTransformer):
+        def visit_Constant(self, node):
+            if isinstance(node.value, str):
+                lits.append(node.value)
+                return ast.Constant(value="\u00a7")
+            return node
+
+    mod = ast.Module(body=copy.deepcopy(strip_doc(fn.body)), type_ignores=[])
+    mod = Blank().visit(mod)
+    return ast.dump(mod), lits
+
+
+def report_skeletons(repo):
+    out = {}
+    for fname, cls, meth, _names in REPORT_FUNCTIONS:
+        tree = ast.parse(open(os.path.join(repo, "valida", fname)).read())
+        c = find_class(tree, cls)
+        fn = find_method(c, meth) if c is not None else None
+        if fn is None:
+            raise ExtractError(f"{fname}: {cls}.{meth} not found")
+        out[f"{cls}.{meth}"] = skeleton_of(fn)
+    return out
+
+
+def gen_report(repo):
+    import json
+    try:
+        recorded = json.load(open(SKELETON_FILE))
+    except FileNotFoundError:
+        raise ExtractError("tools/skeletons.json missing")
+    sk = report_skeletons(repo)
+    L = [
+        "-- GENERATED by tools/extract.py from valida/data.py, valida/rules.py, valida/schema.py — do not edit",
+        "namespace ValidaGen",
+        "namespace ReportFmt",
+        "",
+    ]
+    for fname, cls, meth, names in REPORT_FUNCTIONS:
+        key = f"{cls}.{meth}"
+        dump, lits = sk[key]
+        if dump != recorded.get(key):
+            raise ExtractError(f"{fname}: the shape of {key} is not the recorded one (string literals apart); "
+                               "the report model cannot be regenerated from it")
+        if len(lits) != len(names):
+            raise ExtractError(f"{key}: {len(lits)} string literals, expected {len(names)}")
+        L.append(f"-- {fname}: {key}")
+        for nm, lit in zip(names, lits):
+            if nm.startswith("msg"):
+                # a `str.format` template with exactly one positional field
+                if lit.count("{}") != 1 or lit.replace("{}", "").count("{") or lit.replace("{}", "").count("}"):
+                    raise ExtractError(f"{key}: message template {lit!r} is not `…{{}}…`")
+                pre, post = lit.split("{}")
+                L.append(f"def {nm} : String × String := ({lstr(pre)}, {lstr(post)})")
+            else:
+                L.append(f"def {nm} : String := {lstr(lit)}")
+        L.append("")
+    L.append("end ReportFmt")
+    L.append("end ValidaGen")
+    return "\n".join(L) + "\n"
+
+
 def write_if_changed(path, text):
     try:
         if open(path).read() == text:
@@ -1041,6 +1133,14 @@ def write_if_changed(path, text):
 
 
 def main(argv):
+    if len(argv) > 1 and argv[1] == "--record-skeletons":
+        import json
+        repo = argv[2] if len(argv) > 2 else "/repo"
+        with open(SKELETON_FILE, "w") as fh:
+            json.dump({k: v[0] for k, v in report_skeletons(repo).items()}, fh, indent=1, sort_keys=True)
+            fh.write("\n")
+        print("recorded", SKELETON_FILE)
+        return 0
     repo = argv[1] if len(argv) > 1 else "/repo"
     outdir = argv[2] if len(argv) > 2 else os.path.join(os.path.dirname(os.path.abspath(__file__)), "..", "lean", "ValidaGen")
     os.makedirs(outdir, exist_ok=True)
@@ -1049,6 +1149,7 @@ def main(argv):
             "Callables.lean": gen_callables(repo),
             "Tables.lean": gen_tables(repo),
             "Casting.lean": gen_casting(repo),
+            "ReportFmt.lean": gen_report(repo),
         }
     except (ExtractError, SyntaxError) as e:
         print(f"EXTRACT-ERROR: {e}")
